@@ -81,6 +81,29 @@ func fsSharding(name string) func(string, *[]string) {
 	return sharding.Shard_r12
 }
 
+// c17ShardPartner finds a two-byte key whose escaped form has, right before its last character, the two or
+// three characters that are the whole escaped form of the (very short) key base; "" if there is none.
+func c17ShardPartner(escName, base string) string {
+	esc := fsEscaping(escName)
+	if esc == nil {
+		esc = fsEscaping("hex")
+	}
+	ea := esc(base)
+	if len(ea) < 2 || len(ea) > 3 {
+		return ""
+	}
+	for b0 := 0; b0 < 256; b0++ {
+		for b1 := 0; b1 < 256; b1++ {
+			k := string([]byte{byte(b0), byte(b1)})
+			e := esc(k)
+			if l := len(e); l > len(ea) && e[l-1-len(ea):l-1] == ea {
+				return k
+			}
+		}
+	}
+	return ""
+}
+
 // treeSnapshot hashes every file and lists every directory under root except the subtree skip.
 func treeSnapshot(root, skip string) (map[string]string, error) {
 	out := map[string]string{}
@@ -568,7 +591,14 @@ var c17Part = evid.Part[C17Case]{
 				// a near neighbour of an existing key: keys that differ only late (after a long shared
 				// prefix, around power-of-two lengths) or by one trailing byte must not alias
 				base, _ := val.UnTxt(c.Keys[rapid.IntRange(0, len(c.Keys)-1).Draw(t, "base")])
-				switch rapid.IntRange(0, 3).Draw(t, "derive") {
+				switch rapid.IntRange(0, 4).Draw(t, "derive") {
+				case 4:
+					// a key whose last shard directory is named like the file of a very short key (sharding functions
+					// pad short keys; a padded path must not run into another key's directories)
+					k = c17ShardPartner(c.Escaping, base)
+					if k == "" {
+						k = base + "a"
+					}
 				case 3:
 					// what an escaping function makes of the other key: a key and its own escaped form are two keys
 					switch rapid.IntRange(0, 2).Draw(t, "escform") {
